@@ -503,14 +503,14 @@ static std::vector<std::string> g_stalls;
 
 // end of a child process: turn recorded start stalls into violations.  A task that practically
 // never starts without the caller waiting is `not-finished-within-watchdog`; a stall that hits
-// fewer than 1 in 100 polled tasks gets its own key (it is a different defect: see DESIGN 9.3).
+// fewer than 1 in 100 polled tasks (whatever their number: the rate grows with machine load) gets its own key (it is a different defect: see DESIGN 9.3).
 static void judgeStalls()
 {
   std::lock_guard<std::mutex> g(g_stallMtx);
   if (g_stalls.empty())
     return;
   long polls = g_pollScenarios.load();
-  bool rare  = (long)g_stalls.size() <= 2 && polls >= 100 * (long)g_stalls.size();
+  bool rare  = polls >= 100 * (long)g_stalls.size();  // fewer than 1 in 100 (a tree that does not start tasks stalls on all of them)
   for (size_t i = 0; i < g_stalls.size(); ++i)
     vh::violation(rare ? std::string("C02:AsyncTask:rare-start-stall-until-waited:") + kBackendName : std::string("C02:AsyncTask:not-finished-within-watchdog"),
                   std::to_string(g_stalls.size()) + " of " + std::to_string(polls) + " polled AsyncTasks of this process did not start within 12 s", g_stalls[i]);
